@@ -21,6 +21,44 @@ lg = logging.getLogger('packet')
 
 from pox.lib.util import initHelper
 
+def _contain_parse (parse):
+  """
+  Wraps a subclass's parse() so that it can't raise
+
+  Parsers run on data from the network; a frame one of them chokes on must
+  not take down whoever is handling the packet_in.  If parse() raises, the
+  layer is marked as unparsed and keeps its raw bytes (so it still packs to
+  exactly what was received) instead of propagating the exception.
+  """
+  import functools
+  @functools.wraps(parse)
+  def safe_parse (self, raw, *args, **kw):
+    try:
+      return parse(self, raw, *args, **kw)
+    except Exception as e:
+      lg.info("(%s parse) %s: %s" % (type(self).__name__,
+                                      type(e).__name__, e))
+      self.parsed = False
+      self.raw = raw
+      self.next = None
+  return safe_parse
+
+
+def _contain_str (to_str):
+  """
+  Wraps a subclass's __str__() so that it can't raise
+  """
+  import functools
+  @functools.wraps(to_str)
+  def safe_str (self):
+    try:
+      return to_str(self)
+    except Exception as e:
+      lg.debug("str(%s): %s" % (type(self).__name__, e))
+      return "[%s:Bad representation]" % (type(self).__name__,)
+  return safe_str
+
+
 class packet_base (object):
     """
     TODO: This description is somewhat outdated and should be fixed.
@@ -61,6 +99,13 @@ class packet_base (object):
         def __str__(self):
             # optionally convert to human readable string
     """
+    def __init_subclass__ (cls, **kw):
+        super(packet_base, cls).__init_subclass__(**kw)
+        if 'parse' in cls.__dict__:
+          cls.parse = _contain_parse(cls.__dict__['parse'])
+        if '__str__' in cls.__dict__:
+          cls.__str__ = _contain_str(cls.__dict__['__str__'])
+
     def __init__ (self):
         self.next = None
         self.prev = None
